@@ -37,7 +37,7 @@ type c10Case struct {
 	Calls      []c10Call `json:"calls"`
 }
 
-var c10Queries = []string{"", " ", "a", "list files", "\x00", "ab\x00cd", "\x00\x00", "\xff\xfe", "caf\xe9", strings.Repeat("a", 1000), strings.Repeat("compress ", 111),
+var c10Queries = []string{"\x80", "a\xbfb", "list files\xbf", "compress \x80 directory", "\xe2\x82", "\xf0\x9f\x98", "", " ", "a", "list files", "\x00", "ab\x00cd", "\x00\x00", "\xff\xfe", "caf\xe9", strings.Repeat("a", 1000), strings.Repeat("compress ", 111),
 	strings.Repeat("é", 500), "-", "??", "\n", "\t\t", "<script>", "$(rm -rf)", "İK", "ǅ", "á", "👍👍", "tar -x", "%s%n", "../../..", "\\", "\"", "'", "*", "[a", "(", "a|b", "x y z w v u t s r q p o n m"}
 
 // words of the command lines of the last generated 'entries' file (queries are derived from them)
